@@ -195,11 +195,16 @@ func upValue(v ssa.Value, path []ssa.CallInstruction) ssa.Value {
 // inRegion: fi executes only inside the region dominated by block b of the root function
 // (b dominates the instruction itself, or the outermost call site that leads to it).
 func inRegion(fi famInstr, b *ssa.BasicBlock) bool {
-	top := fi.Top()
-	if top.Parent() != b.Parent() {
-		return false
+	// the level of the path that lies in b's function decides
+	if fi.I.Parent() == b.Parent() {
+		return b.Dominates(fi.I.Block())
 	}
-	return b.Dominates(top.Block())
+	for k := len(fi.Path) - 1; k >= 0; k-- {
+		if fi.Path[k].Parent() == b.Parent() {
+			return b.Dominates(fi.Path[k].Block())
+		}
+	}
+	return false
 }
 
 func sortedFuncs(m map[*ssa.Function]bool) []*ssa.Function {
